@@ -17,7 +17,7 @@ namespace AsmjitVerif.Invoke
 open AsmjitVerif.CallConv
 
 inductive Mnm
-  | mov | movsx | movzx | movsxd | lea | movaps | movups | movd | movq | movss | movlps | and_ | sub | call | other
+  | mov | movsx | movzx | movsxd | lea | movaps | movups | movd | movq | movss | movlps | and_ | sub | call | other | str | ldr | strb | strh
   deriving DecidableEq, Repr
 
 inductive XOp
@@ -275,11 +275,60 @@ def onBeforeInvoke (is64 avx : Bool) (calleePops : Bool) (d : Detail) (ops : Lis
     .ok { pre := s.out, post := post, args := args, argStack := s.argStack, callStackSize := max css0 s.argStack,
           callStackAlign := s.csAlign, temps := s.temps }
 
+/-! ### AArch64 (a64rapass.cpp): no temporaries, no immediate stores – an immediate goes through a new 64-bit register, a register
+    is stored with `str` in its own width; register arguments are passed as they are -/
+
+/-- a64 `move_imm_to_reg_arg`: the immediate as it is moved (always into a new x register) -/
+def a64ImmValue (t : Nat) (imm : BitVec 64) : Option (BitVec 64) :=
+  if t = 34 then some (sext8 imm) else if t = 35 then some (zext8 imm) else if t = 36 then some (sext16 imm)
+  else if t = 37 then some (zext16 imm) else if t = 38 then some (sext32 imm) else if t = 39 then some (zext32 imm)
+  else if t = 40 || t = 41 then some imm else none
+
+def a64SpId : Nat := 31
+/-- register type of an AArch64 virtual register created with a TypeId -/
+def a64RtOfType (t : Nat) : Nat :=
+  if isInt t then (if tySize t ≤ 4 then 5 else 6)
+  else if tySize t ≤ 4 then 9 else if tySize t ≤ 8 then 10 else 11
+
+def a64LowerValue (s : LSt) (arg : FuncValue) (op : ArgOp) : Except String (LSt × ArgOp) :=
+  let str (s : LSt) (rt id : Nat) : LSt := s.emit ⟨.str, false, [.reg rt id, .mem a64SpId arg.stackOffset 0], false⟩
+  match op with
+  | .none => .ok (s, op)
+  | .imm v =>
+    match a64ImmValue arg.typeId v with
+    | none => .error "InvalidAssignment"
+    | some w =>
+      let id := s.nextV
+      let s := { s with nextV := id + 1 }.emit ⟨.mov, false, [.reg 6 id, .imm w], false⟩
+      if arg.isReg then .ok (s, .gp id 41) else .ok (str s 6 id, op)
+  | .gp vid t =>
+    if arg.isReg then (if lowerValue.groupOfRt arg.regType ≠ 0 then .error "InvalidAssignment" else .ok (s, op))
+    else .ok (str s (a64RtOfType t) vid, op)
+  | .vec vid t =>
+    if arg.isReg then (if lowerValue.groupOfRt arg.regType ≠ 1 then .error "InvalidAssignment" else .ok (s, op))
+    else .ok (str s (a64RtOfType t) vid, op)
+
+def a64LowerPack (s : LSt) : List FuncValue → List ArgOp → Except String (LSt × List ArgOp)
+  | a :: as, o :: os =>
+    match a64LowerValue s a o with
+    | .error e => .error e
+    | .ok (s, o') =>
+      match a64LowerPack s as os with
+      | .error e => .error e
+      | .ok (s, os') => .ok (s, o' :: os')
+  | _, _ => .ok (s, [])
+
+/-- a64 `on_before_invoke` for one-value packs: instructions and the frame's call_stack_size -/
+def a64OnBeforeInvoke (d : Detail) (ops : List ArgOp) (css0 : Nat) : Except String (List XI × Nat) :=
+  match a64LowerPack { is64 := true, avx := false, argStack := d.argStackSize, csAlign := 16 } (d.args.map fun p => p.headD (.ofType 0)) ops with
+  | .error e => .error e
+  | .ok (s, _) => .ok (s.out, max css0 d.argStackSize)
+
 /-! ### text -/
 def Mnm.text : Mnm → String
   | .mov => "mov" | .movsx => "movsx" | .movzx => "movzx" | .movsxd => "movsxd" | .lea => "lea" | .movaps => "movaps"
   | .movups => "movups" | .movd => "movd" | .movq => "movq" | .movss => "movss" | .movlps => "movlps" | .and_ => "and"
-  | .sub => "sub" | .call => "call" | .other => "?"
+  | .sub => "sub" | .call => "call" | .other => "?" | .str => "str" | .ldr => "ldr" | .strb => "strb" | .strh => "strh"
 
 def hexOf (v : BitVec 64) : String := String.ofList (Nat.toDigits 16 v.toNat)
 
